@@ -470,6 +470,10 @@ def r3(ck, F, name, exp, car, A):
             if k in ("body", "event") and not (ei < i < xi):
                 problems.append("%s at bb%d lies outside enter..guard-drop on a path ending in %s" % (k, seq[i][1], p.end))
                 break
+    for sb in top_sites:
+        t = car.term(sb)
+        if t["k"] == "call" and not isinstance(t.get("unwind"), int) and sb in car.reachable(et.get("ret")):
+            problems.append("a panic at bb%d unwinds out of the function with no cleanup path that drops the span guard" % sb)
     if ev.truncated:
         problems.append("path enumeration truncated")
     if not n:
@@ -809,19 +813,26 @@ def r3_lib(ck, L):
         kinds = []
         for c in p.calls:
             cal = c[1]
-            if cal.get("path") == ENTER:
+            if cal.get("path") == ENTER or cal.get("path") == "tracing::span::Span::do_enter":
                 kinds.append("enter")
             elif cal.get("method") == "poll" and cal.get("trait") == "core::future::future::Future":
                 kinds.append("poll")
-            elif cal.get("path") == "<drop>" and "Entered" in str(cal.get("drop_ty")):
+            elif (cal.get("path") == "<drop>" and "Entered" in str(cal.get("drop_ty"))) or cal.get("path") == "tracing::span::Span::do_exit":
                 kinds.append("exit")
         if "poll" not in kinds:
             continue
         n += 1
+        # a poll call that unwinds straight out of the function (`unwind continue`) has no cleanup path on which the
+        # span could be exited
+        for c in p.calls:
+            if c[1].get("method") == "poll" and c[1].get("trait") == "core::future::future::Future":
+                uw = b.term(c[0]).get("unwind")
+                if not isinstance(uw, int) and "enter" in kinds:
+                    problems.append("a panic in the polled future unwinds out of poll without exiting the span (no cleanup path holds the guard): the span stays entered on this thread")
         if kinds.count("enter") != 1 or kinds.index("enter") > kinds.index("poll"):
             problems.append("inner poll not preceded by exactly one Span::enter: %s" % kinds)
         elif "exit" not in kinds[kinds.index("poll"):]:
-            problems.append("guard not dropped after the inner poll on a path ending in %s" % p.end)
+            problems.append("the span is not exited after the inner poll on a path ending in %s%s" % (p.end, " (a panic in the polled future leaves the span entered on this thread)" if p.end == "resume" else ""))
     if n and not problems:
         ck.ok("C17.R3", key, fn=b.path, detail="%d paths" % n)
     else:
